@@ -102,7 +102,12 @@ func (s *Service) unblindersForProposal(ctx context.Context,
 		return nil, errors.Wrap(err, "failed to obtain validator pubkey")
 	}
 
-	proposerConfig, err := s.ProposerConfig(ctx, nil, pubkey)
+	// The proposer's settings may be selected by its account, as they were for the auction.
+	account, err := s.accountsProvider.AccountByPublicKey(ctx, pubkey)
+	if err != nil {
+		account = nil
+	}
+	proposerConfig, err := s.ProposerConfig(ctx, account, pubkey)
 	if err != nil {
 		return nil, errors.Wrap(err, "failed to obtain proposer configuration")
 	}
